@@ -38,6 +38,8 @@ def digest(p):
     try:
         t = blackbird.BlackbirdProgram.serialize.__wrapped_orig__(p) if hasattr(blackbird.BlackbirdProgram.serialize, "__wrapped_orig__") else p.serialize()
     except Exception as e:
+        if isinstance(e, common.Timeout):
+            raise   # never a value of a digest
         t = "serialize-raises:" + type(e).__name__
     extra = [str(x) for x in getattr(p, "_parameters", [])], sorted(str(k) for k in getattr(p, "_forvar", {}))
     return json.dumps([c, t, extra], sort_keys=True, default=str)
@@ -63,7 +65,8 @@ def install_hooks():
                 progs = progs_of(a, k)
                 Rec.depth += 1
                 try:
-                    before = [digest(p) for p in progs]
+                    with common.watchdog_paused():
+                        before = [digest(p) for p in progs]
                 finally:
                     Rec.depth -= 1
                 try:
@@ -71,7 +74,8 @@ def install_hooks():
                 finally:
                     Rec.depth += 1
                     try:
-                        after = [digest(p) for p in progs]
+                        with common.watchdog_paused():
+                            after = [digest(p) for p in progs]
                     finally:
                         Rec.depth -= 1
                     for b, x in zip(before, after):
